@@ -9,5 +9,6 @@ CONSTANTS
   Rich = FALSE
   HistLen = 16
   CondMix = FALSE
+  ClientMix = FALSE
 INVARIANTS EmitHist InvWellFormed
 CHECK_DEADLOCK FALSE
